@@ -82,6 +82,40 @@ def detectedRow (n k interval half delta : Nat) (crashAt : List (Option Nat)) (a
     | none => true
     | some c => t ≤ detectDeadline n k interval half delta c || lget MState.alive row x != .alive
 
+/-! clause 2, every public report: besides `get_member_state`, a node reports its view through the
+lists `alive_members` / `suspected_members` / `dead_members`, the counters of `stats` and the counts
+shown by `repr`.  All of them must say what the per-member states say. -/
+
+/-- the public summary reports of one node -/
+structure Report where
+  /-- `stats.alive_count`, `stats.suspect_count`, `stats.dead_count` -/
+  ac : Nat
+  sc : Nat
+  dc : Nat
+  /-- `alive_members`, `suspected_members`, `dead_members` (member indices, in member-table order) -/
+  al : List Nat
+  sl : List Nat
+  dl : List Nat
+  /-- the counts printed by `repr` -/
+  ra : Nat
+  rs : Nat
+  rd : Nat
+deriving DecidableEq, Repr, Inhabited
+
+/-- the members of node `a` that its row shows in state `st`, in index order -/
+def membersIn (a : Nat) (row : List MState) (st : MState) : List Nat :=
+  (List.range row.length).filter fun x => x != a && lget MState.alive row x == st
+
+/-- the report that agrees with a row -/
+def reportOf (a : Nat) (row : List MState) : Report :=
+  let al := membersIn a row .alive
+  let sl := membersIn a row .suspect
+  let dl := membersIn a row .dead
+  ⟨al.length, sl.length, dl.length, al, sl, dl, al.length, sl.length, dl.length⟩
+
+/-- every summary report of node `a` agrees with the per-member states it reports -/
+def reportOk (a : Nat) (row : List MState) (r : Report) : Bool := r == reportOf a row
+
 /-- a reported phi value (bit pattern of a binary64) as a `PV`.  Non-negative finite doubles are
     ordered exactly like their bit patterns, so the pattern itself serves as the (scaled) value;
     `0x7FF0000000000000` is `+∞`, `0x8000000000000000` is `-0.0 = 0`; negative numbers and NaNs are
